@@ -1,0 +1,6 @@
+//go:build !verif
+
+package server
+
+// verifYield is a verification hook; it is empty unless built with the tag "verif".
+func verifYield(string, *fsm) {}
